@@ -862,6 +862,20 @@ def _refs_of(node) -> set:
     return out
 
 
+def _closure(decls: list, name: str) -> set:
+    """class-cased names of every schema reachable from `name` through references"""
+    g = {d[0]: _refs_of(d[1]) for d in decls}
+    g.update({_cls(k): v for k, v in list(g.items())})
+    seen, todo = set(), [name]
+    while todo:
+        x = todo.pop()
+        if x in seen:
+            continue
+        seen.add(x)
+        todo.extend(g.get(x, ()))
+    return {_cls(x) for x in seen}
+
+
 def _reaches_itself(decls: list, name: str) -> bool:
     """Is there a reference cycle anywhere in the document from which `name` is reachable or on which it lies?  (What is parsed
     'inside' what depends on the declaration order, so any cycle touching the schema's reference closure counts.)"""
@@ -964,6 +978,7 @@ def _eval_case(case: dict) -> list:
     spec = dict((n, f) for n, f in r["spec"])
     nodes = dict((d[0], d[1]) for d in decls)
     oa_schemas = spec_of(decls)["components"]["schemas"]
+    depth_cut = {_cls(x) for x, _f, k in r["fields"] if k == "depth"} | {o.get("name") for _k, o, _p in r["registry"] if o.get("kind") == "depth"}
     for n, fs, kind in r["fields"]:
         node = nodes[n]
         while "n" in node:
@@ -983,8 +998,11 @@ def _eval_case(case: dict) -> list:
         spec_n = [f for f in spec[n] if f[0] not in via]
         ok = fs_n is not None and kind == "full" and _same_field_set(fs_n, spec_n)
         if not ok:
-            fail(_classify_c02(decls, n, node, kind, fs_n or [], spec_n), {"kind": kind, "fields": fs},
-                 {"kind": "full", "fields": spec[n]}, name=n)
+            cls = _classify_c02(decls, n, node, kind, fs_n or [], spec_n)
+            if cls == "allof-required-flag-differs" and _closure(decls, n) & depth_cut:
+                # a composition member that was cut at the depth limit (F9) contributes neither fields nor required flags
+                cls = "depth-placeholder-permanent"
+            fail(cls, {"kind": kind, "fields": fs}, {"kind": "full", "fields": spec[n]}, name=n)
     # ---- C19: declaration order / property order
     perm = case.get("perm")
     if perm is not None or case.get("decls2") is not None:
